@@ -15,7 +15,7 @@ PROP = {  # commit subject prefix -> property
  "SPARQLUpdateStore.commit()": "C20", "SPARQLUpdateStore.update(initBindings=)": "C20",
  "SPARQLUpdateStore addresses": "C20", "SPARQLUpdateStore recognises long": "C20", "SPARQL XML results keep": "C16", "SPARQL XML result reader": "C16",
  "SPARQL TSV result reader": "C16", "from_n3 reads the n3 form": "C07", "from_n3 no longer mangles": "C07",
- "pickling or copying": "C07", "ordering literals": "C07", "NaN-valued literals": "C07", "literal ordering ignores": "C07", "an ill-typed literal is ordered": "C07", "the n3 form of a multi-line": "C07",
+ "pickling or copying": "C07", "ordering literals": "C07", "NaN-valued literals": "C07", "xsd:duration and xsd:yearMonthDuration": "C07", "literal ordering ignores": "C07", "an ill-typed literal is ordered": "C07", "the n3 form of a multi-line": "C07",
  "from_n3 un-escapes": "C07", "the SPARQL parser keeps TAB": "C07", "RDF Patch diff": "C06", "TriG keeps": "C06",
  "the N-Triples parser accepts statements": "C05", "a language tag with": "C05", "parsing from bytes": "C05",
  "N-Triples/N-Quads output validates": "C05", "control characters make": "C05",
